@@ -1,4 +1,660 @@
-// In-crate harnesses (included by the guarded hook at the end of the source file of the same name).
+// In-crate harnesses for autosar-data/src/lexer.rs (included by the guarded hook at the end of that file).
+// Every harness is one inductive step of the tokenizer from an ARBITRARY VALID state (representation invariant `inv`),
+// with exactly the precondition `next()` establishes before it calls the step.
 use super::*;
 
 include!(concat!(env!("AUTOSAR_DATA_VERIF_DIR"), "/harness/vk.rs"));
+
+fn count_nl(b: &[u8], upto: usize) -> usize {
+    let mut n = 0;
+    let mut i = 0;
+    while i < upto {
+        if b[i] == b'\n' {
+            n += 1;
+        }
+        i += 1;
+    }
+    n
+}
+
+fn is_ws(b: u8) -> bool {
+    // XML white space as the tokenizer reads it (u8::is_ascii_whitespace): space, \t, \n, \x0c, \r
+    b == b' ' || b == b'\t' || b == b'\n' || b == 0x0c || b == b'\r'
+}
+
+/// representation invariant of the tokenizer state
+fn inv(lx: &ArxmlLexer) -> bool {
+    if lx.bufpos > lx.buffer.len() {
+        return false;
+    }
+    if lx.line < 1 || lx.line > 1 + count_nl(lx.buffer, lx.bufpos) {
+        return false;
+    }
+    if let Some((s, e)) = lx.deferred_end {
+        if !(s <= e && e <= lx.bufpos) {
+            return false;
+        }
+    }
+    true
+}
+
+/// an arbitrary tokenizer state over `buf` that satisfies the invariant
+fn any_lexer<'a>(buf: &'a [u8], with_deferred: bool) -> ArxmlLexer<'a> {
+    let bufpos = vk::any_usize();
+    vk::assume(bufpos <= buf.len());
+    let line = vk::any_usize();
+    vk::assume(line >= 1 && line <= 1 + count_nl(buf, bufpos));
+    let deferred_end = if with_deferred && vk::any_bool() {
+        let s = vk::any_usize();
+        let e = vk::any_usize();
+        vk::assume(s <= e && e <= bufpos);
+        Some((s, e))
+    } else {
+        None
+    };
+    ArxmlLexer {
+        buffer: buf,
+        bufpos,
+        line,
+        deferred_end,
+        sourcefile: PathBuf::new(),
+    }
+}
+
+/// precondition of the '<...>' steps: buffer[bufpos] == '<', endpos is the first '>' after it, endpos > bufpos + 1
+fn assume_tag(lx: &ArxmlLexer) -> usize {
+    let len = lx.buffer.len();
+    vk::assume(lx.bufpos < len);
+    vk::assume(lx.buffer[lx.bufpos] == b'<');
+    let endpos = vk::any_usize();
+    vk::assume(endpos > lx.bufpos + 1 && endpos < len);
+    vk::assume(lx.buffer[endpos] == b'>');
+    let mut i = lx.bufpos + 1;
+    while i < endpos {
+        vk::assume(lx.buffer[i] != b'>');
+        i += 1;
+    }
+    endpos
+}
+
+fn lexer_err_line_ok(e: &AutosarDataError, buf: &[u8]) -> bool {
+    match e {
+        AutosarDataError::LexerError { line, .. } => *line >= 1 && *line <= 1 + count_nl(buf, buf.len()),
+        _ => false,
+    }
+}
+
+/// offset of a sub-slice inside the buffer (both are known to belong to the same allocation)
+fn offset_in(buf: &[u8], part: &[u8]) -> usize {
+    unsafe { part.as_ptr().offset_from(buf.as_ptr()) as usize }
+}
+
+fn bytes_eq(a: &[u8], b: &[u8]) -> bool {
+    if a.len() != b.len() {
+        return false;
+    }
+    let mut i = 0;
+    while i < a.len() {
+        if a[i] != b[i] {
+            return false;
+        }
+        i += 1;
+    }
+    true
+}
+
+// ---------------------------------------------------------------------------------------------------------
+// C02: totality steps. asserted: no panic / overflow / out-of-bounds (Kani's checks), invariant afterwards,
+// strict progress of the cursor (termination measure len - bufpos), error lines within the input's lines
+// ---------------------------------------------------------------------------------------------------------
+macro_rules! h_lex_characters {
+    ($name:ident, $n:literal, $unw:literal) => {
+        #[cfg_attr(kani, kani::proof)]
+        #[cfg_attr(kani, kani::unwind($unw))]
+        pub fn $name() {
+            let buf: [u8; $n] = vk::any_bytes::<$n>();
+            let len = vk::any_usize();
+            vk::assume(len <= $n);
+            let mut lx = any_lexer(&buf[..len], true);
+            vk::assume(lx.bufpos < len && buf[lx.bufpos] != b'<');
+            let old = lx.bufpos;
+            let (ev, _all_ws) = lx.read_characters();
+            vk_cover!(lx.bufpos == len, "text runs to the end of the input");
+            vk_cover!(lx.bufpos < len, "text ends at a '<'");
+            vk_check!(lx.bufpos > old, "read_characters made no progress");
+            vk_check!(inv(&lx), "tokenizer invariant broken by read_characters");
+            core::mem::forget(ev);
+            core::mem::forget(lx);
+        }
+    };
+}
+
+macro_rules! h_lex_element_start {
+    ($name:ident, $n:literal, $unw:literal) => {
+        #[cfg_attr(kani, kani::proof)]
+        #[cfg_attr(kani, kani::unwind($unw))]
+        pub fn $name() {
+            let buf: [u8; $n] = vk::any_bytes::<$n>();
+            let len = vk::any_usize();
+            vk::assume(len <= $n);
+            let mut lx = any_lexer(&buf[..len], false);
+            let endpos = assume_tag(&lx);
+            let old = lx.bufpos;
+            let ev = lx.read_element_start(endpos);
+            vk_cover!(lx.deferred_end.is_some(), "self-closing element");
+            vk_cover!(lx.deferred_end.is_none(), "open element");
+            vk_check!(lx.bufpos > old, "read_element_start made no progress");
+            vk_check!(inv(&lx), "tokenizer invariant broken by read_element_start");
+            core::mem::forget(ev);
+            core::mem::forget(lx);
+        }
+    };
+}
+
+macro_rules! h_lex_element_end {
+    ($name:ident, $n:literal, $unw:literal) => {
+        #[cfg_attr(kani, kani::proof)]
+        #[cfg_attr(kani, kani::unwind($unw))]
+        pub fn $name() {
+            let buf: [u8; $n] = vk::any_bytes::<$n>();
+            let len = vk::any_usize();
+            vk::assume(len <= $n);
+            let mut lx = any_lexer(&buf[..len], false);
+            let endpos = assume_tag(&lx);
+            vk::assume(buf[lx.bufpos + 1] == b'/');
+            let old = lx.bufpos;
+            let ev = lx.read_element_end(endpos);
+            vk_cover!(true, "end tag read");
+            vk_check!(lx.bufpos > old, "read_element_end made no progress");
+            vk_check!(inv(&lx), "tokenizer invariant broken by read_element_end");
+            core::mem::forget(ev);
+            core::mem::forget(lx);
+        }
+    };
+}
+
+macro_rules! h_lex_xml_header {
+    ($name:ident, $n:literal, $unw:literal) => {
+        #[cfg_attr(kani, kani::proof)]
+        #[cfg_attr(kani, kani::unwind($unw))]
+        pub fn $name() {
+            let buf: [u8; $n] = vk::any_bytes::<$n>();
+            let len = vk::any_usize();
+            vk::assume(len <= $n);
+            let mut lx = any_lexer(&buf[..len], false);
+            let endpos = assume_tag(&lx);
+            vk::assume(buf[lx.bufpos + 1] == b'?');
+            let old = lx.bufpos;
+            let r = lx.read_xml_header(endpos);
+            match &r {
+                Some(Err(e)) => {
+                    vk_cover!(true, "processing instruction rejected");
+                    vk_check!(lexer_err_line_ok(e, &buf[..len]), "error line outside the input's lines (read_xml_header)");
+                    // an error ends tokenizing: no progress required
+                    vk_check!(lx.bufpos <= len, "cursor beyond the end of the input after an error");
+                }
+                Some(Ok(_)) => {
+                    vk_check!(lx.bufpos > old, "read_xml_header made no progress");
+                    vk_check!(inv(&lx), "tokenizer invariant broken by read_xml_header");
+                }
+                None => {
+                    vk_cover!(true, "processing instruction skipped");
+                    vk_check!(lx.bufpos > old, "read_xml_header made no progress");
+                    vk_check!(inv(&lx), "tokenizer invariant broken by read_xml_header");
+                }
+            }
+            core::mem::forget(r);
+            core::mem::forget(lx);
+        }
+    };
+}
+
+// the real header text has 36+ bytes; with a concrete skeleton and symbolic holes the accepting path is reached:
+// <?xml version=Q1.0Q encoding=QutfXQ S?>  (Q, X, S and the separator bytes symbolic)
+macro_rules! h_lex_xml_header_tmpl {
+    ($name:ident, $unw:literal) => {
+        #[cfg_attr(kani, kani::proof)]
+        #[cfg_attr(kani, kani::unwind($unw))]
+        pub fn $name() {
+            let mut buf: [u8; 44] = *b"<?xml version=\"1.0\" encoding=\"utf-8\" s=\"y\"?>";
+            // symbolic holes: separators, quotes, one name byte, one value byte, the byte before '>'
+            let holes: [usize; 9] = [5, 14, 18, 19, 29, 34, 35, 36, 42];
+            let mut i = 0;
+            while i < holes.len() {
+                buf[holes[i]] = vk::any_u8();
+                vk::assume(buf[holes[i]] != b'>');
+                i += 1;
+            }
+            let mut lx = ArxmlLexer { buffer: &buf[..], bufpos: 0, line: 1, deferred_end: None, sourcefile: PathBuf::new() };
+            let r = lx.read_xml_header(43);
+            match &r {
+                Some(Err(e)) => {
+                    vk_cover!(true, "header rejected");
+                    vk_check!(lexer_err_line_ok(e, &buf[..]), "error line outside the input's lines (read_xml_header)");
+                }
+                Some(Ok(_)) => {
+                    vk_cover!(true, "header accepted");
+                    vk_check!(lx.bufpos == 44 && inv(&lx), "tokenizer invariant broken by read_xml_header");
+                }
+                None => {
+                    vk_cover!(true, "not the xml declaration");
+                    vk_check!(lx.bufpos == 44 && inv(&lx), "tokenizer invariant broken by read_xml_header");
+                }
+            }
+            core::mem::forget(r);
+            core::mem::forget(lx);
+        }
+    };
+}
+
+macro_rules! h_lex_comment {
+    ($name:ident, $n:literal, $unw:literal) => {
+        #[cfg_attr(kani, kani::proof)]
+        #[cfg_attr(kani, kani::unwind($unw))]
+        pub fn $name() {
+            let buf: [u8; $n] = vk::any_bytes::<$n>();
+            let len = vk::any_usize();
+            vk::assume(len <= $n);
+            let mut lx = any_lexer(&buf[..len], false);
+            // what next() guarantees before read_comment(e): buffer[bufpos..bufpos+2] == "<!", bufpos + 1 < e < len,
+            // buffer[e-2..=e] == "-->"
+            vk::assume(lx.bufpos < len && buf[lx.bufpos] == b'<');
+            let endpos = vk::any_usize();
+            vk::assume(endpos > lx.bufpos + 1 && endpos < len);
+            vk::assume(buf[lx.bufpos + 1] == b'!');
+            vk::assume(buf[endpos] == b'>' && buf[endpos - 1] == b'-' && buf[endpos - 2] == b'-');
+            let old = lx.bufpos;
+            let r = lx.read_comment(endpos);
+            match &r {
+                Err(e) => {
+                    vk_cover!(true, "malformed comment rejected");
+                    vk_check!(lexer_err_line_ok(e, &buf[..len]), "error line outside the input's lines (read_comment)");
+                }
+                Ok(_) => {
+                    vk_cover!(true, "comment accepted");
+                    vk_check!(lx.bufpos > old, "read_comment made no progress");
+                    vk_check!(inv(&lx), "tokenizer invariant broken by read_comment");
+                }
+            }
+            core::mem::forget(r);
+            core::mem::forget(lx);
+        }
+    };
+}
+
+// the dispatcher itself: next() from an arbitrary valid state on an arbitrary buffer
+macro_rules! h_lex_next {
+    ($name:ident, $n:literal, $unw:literal) => {
+        #[cfg_attr(kani, kani::proof)]
+        #[cfg_attr(kani, kani::unwind($unw))]
+        pub fn $name() {
+            let buf: [u8; $n] = vk::any_bytes::<$n>();
+            let len = vk::any_usize();
+            vk::assume(len <= $n);
+            let mut lx = any_lexer(&buf[..len], true);
+            let old = lx.bufpos;
+            let had_deferred = lx.deferred_end.is_some();
+            let r = lx.next();
+            let mut ok = true;
+            let mut progress = true;
+            let mut line_ok = true;
+            match &r {
+                Ok((line, ev)) => {
+                    line_ok = *line >= 1 && *line <= 1 + count_nl(&buf[..len], len);
+                    if let ArxmlEvent::EndOfFile = ev {
+                        progress = true;
+                    } else if !had_deferred {
+                        progress = false; // decided below, after the borrow of lx ends
+                    }
+                }
+                Err(e) => {
+                    ok = false;
+                    line_ok = lexer_err_line_ok(e, &buf[..len]);
+                }
+            }
+            let is_eof = matches!(&r, Ok((_, ArxmlEvent::EndOfFile)));
+            core::mem::forget(r);
+            vk_cover!(!ok, "some input is rejected");
+            vk_cover!(ok && !is_eof, "some input yields a token");
+            vk_check!(line_ok, "line number outside the input's lines (next)");
+            if ok {
+                vk_check!(inv(&lx), "tokenizer invariant broken by next");
+                if !is_eof && !had_deferred {
+                    vk_check!(lx.bufpos > old, "next returned a token without consuming input");
+                }
+                if is_eof {
+                    vk_check!(lx.bufpos == len, "end of file reported before the end of the input");
+                }
+            }
+            let _ = progress;
+            core::mem::forget(lx);
+        }
+    };
+}
+
+// ---------------------------------------------------------------------------------------------------------
+// C01 (token level): the tokenizer hands out exactly the bytes of the document
+// ---------------------------------------------------------------------------------------------------------
+// K3: a comment token is exactly the text between "<!--" and the first "-->" (the writer emits "<!--" + text + "-->")
+macro_rules! h_lex_comment_exact {
+    ($name:ident, $n:literal, $unw:literal) => {
+        #[cfg_attr(kani, kani::proof)]
+        #[cfg_attr(kani, kani::unwind($unw))]
+        pub fn $name() {
+            let buf: [u8; $n] = vk::any_bytes::<$n>();
+            let len = vk::any_usize();
+            vk::assume(len <= $n);
+            let mut lx = any_lexer(&buf[..len], false);
+            vk::assume(lx.bufpos < len && buf[lx.bufpos] == b'<');
+            let endpos = vk::any_usize();
+            vk::assume(endpos > lx.bufpos + 1 && endpos < len);
+            vk::assume(buf[lx.bufpos + 1] == b'!');
+            vk::assume(buf[endpos] == b'>' && buf[endpos - 1] == b'-' && buf[endpos - 2] == b'-');
+            let old = lx.bufpos;
+            let r = lx.read_comment(endpos);
+            let wellformed = endpos >= old + 6 && buf[old + 2] == b'-' && buf[old + 3] == b'-';
+            match &r {
+                Ok(ArxmlEvent::Comment(text)) => {
+                    vk_cover!(text.len() > 0, "non-empty comment");
+                    vk_check!(wellformed, "a token that does not start with <!-- was accepted as a comment");
+                    vk_check!(offset_in(&buf, text) == old + 4 && text.len() == endpos - 2 - (old + 4), "comment text is not the bytes between <!-- and -->");
+                    vk_check!(lx.bufpos == endpos + 1, "cursor not directly behind the comment");
+                }
+                Ok(_) => vk_check!(false, "read_comment returned a different token kind"),
+                Err(_) => vk_check!(!wellformed, "a well-formed comment was rejected"),
+            }
+            core::mem::forget(r);
+            core::mem::forget(lx);
+        }
+    };
+}
+
+// element start: name = bytes up to the first white space, attribute text = the rest (without the '/' of <a/>),
+// and the deferred end token of <a/> carries the same name
+macro_rules! h_lex_element_start_exact {
+    ($name:ident, $n:literal, $unw:literal) => {
+        #[cfg_attr(kani, kani::proof)]
+        #[cfg_attr(kani, kani::unwind($unw))]
+        pub fn $name() {
+            let buf: [u8; $n] = vk::any_bytes::<$n>();
+            let len = vk::any_usize();
+            vk::assume(len <= $n);
+            let mut lx = any_lexer(&buf[..len], false);
+            let endpos = assume_tag(&lx);
+            let old = lx.bufpos;
+            let ev = lx.read_element_start(endpos);
+            let selfclosing = buf[endpos - 1] == b'/';
+            let text_end = if selfclosing { endpos - 1 } else { endpos };
+            // reference: first white space in buf[old+1 .. text_end]
+            let mut split = text_end;
+            let mut i = old + 1;
+            while i < text_end {
+                if is_ws(buf[i]) {
+                    split = i;
+                    break;
+                }
+                i += 1;
+            }
+            match &ev {
+                ArxmlEvent::BeginElement(name, attrs) => {
+                    vk_cover!(attrs.len() > 0, "element with attribute text");
+                    vk_cover!(selfclosing, "self-closing element");
+                    vk_check!(offset_in(&buf, name) == old + 1 && name.len() == split - (old + 1), "element name is not the bytes up to the first white space");
+                    if split < text_end {
+                        vk_check!(offset_in(&buf, attrs) == split + 1 && attrs.len() == text_end - (split + 1), "attribute text is not the rest of the tag");
+                    } else {
+                        vk_check!(attrs.len() == 0, "attribute text invented");
+                    }
+                    match lx.deferred_end {
+                        Some((s, e)) => vk_check!(selfclosing && s == old + 1 && e == split, "deferred end token does not carry the element's name"),
+                        None => vk_check!(!selfclosing, "<a/> produced no end token"),
+                    }
+                    vk_check!(lx.bufpos == endpos + 1, "cursor not directly behind the tag");
+                }
+                _ => vk_check!(false, "read_element_start returned a different token kind"),
+            }
+            core::mem::forget(ev);
+            core::mem::forget(lx);
+        }
+    };
+}
+
+macro_rules! h_lex_characters_exact {
+    ($name:ident, $n:literal, $unw:literal) => {
+        #[cfg_attr(kani, kani::proof)]
+        #[cfg_attr(kani, kani::unwind($unw))]
+        pub fn $name() {
+            let buf: [u8; $n] = vk::any_bytes::<$n>();
+            let len = vk::any_usize();
+            vk::assume(len <= $n);
+            let mut lx = any_lexer(&buf[..len], false);
+            vk::assume(lx.bufpos < len && buf[lx.bufpos] != b'<');
+            let old = lx.bufpos;
+            let (ev, all_ws) = lx.read_characters();
+            // reference: text runs to the next '<' or the end of input
+            let mut end = len;
+            let mut any_non_ws = false;
+            let mut i = old;
+            while i < len {
+                if buf[i] == b'<' {
+                    end = i;
+                    break;
+                }
+                if !is_ws(buf[i]) {
+                    any_non_ws = true;
+                }
+                i += 1;
+            }
+            match &ev {
+                ArxmlEvent::Characters(text) => {
+                    vk_cover!(all_ws, "white space only");
+                    vk_cover!(!all_ws && end < len, "text followed by a tag");
+                    vk_check!(offset_in(&buf, text) == old && text.len() == end - old, "character token is not the bytes up to the next '<'");
+                    vk_check!(all_ws == !any_non_ws, "white-space-only flag wrong (significant text would be dropped or blank text kept)");
+                    vk_check!(lx.bufpos == end, "cursor not at the next '<'");
+                }
+                _ => vk_check!(false, "read_characters returned a different token kind"),
+            }
+            core::mem::forget(ev);
+            core::mem::forget(lx);
+        }
+    };
+}
+
+macro_rules! h_lex_element_end_exact {
+    ($name:ident, $n:literal, $unw:literal) => {
+        #[cfg_attr(kani, kani::proof)]
+        #[cfg_attr(kani, kani::unwind($unw))]
+        pub fn $name() {
+            let buf: [u8; $n] = vk::any_bytes::<$n>();
+            let len = vk::any_usize();
+            vk::assume(len <= $n);
+            let mut lx = any_lexer(&buf[..len], false);
+            let endpos = assume_tag(&lx);
+            vk::assume(buf[lx.bufpos + 1] == b'/');
+            let old = lx.bufpos;
+            let ev = lx.read_element_end(endpos);
+            match &ev {
+                ArxmlEvent::EndElement(name) => {
+                    vk_cover!(name.len() > 0, "named end tag");
+                    vk_check!(offset_in(&buf, name) == old + 2 && name.len() == endpos - (old + 2), "end tag name is not the bytes between </ and >");
+                    vk_check!(lx.bufpos == endpos + 1, "cursor not directly behind the end tag");
+                }
+                _ => vk_check!(false, "read_element_end returned a different token kind"),
+            }
+            core::mem::forget(ev);
+            core::mem::forget(lx);
+        }
+    };
+}
+
+// ---------------------------------------------------------------------------------------------------------
+// C02: the dispatcher next() with its five steps replaced by their contracts (assume-guarantee):
+//   * each stub ASSERTS the precondition the step harnesses above assume (so a dispatcher that calls a step
+//     outside its precondition is a counterexample), and
+//   * returns an arbitrary result within the postcondition the step harnesses PROVE (progress, invariant).
+// Only the real dispatch logic, the '>' search, the comment-end scan and the deferred token are executed, for ONE pass of the
+// skip loop: a pass that loops (blank text, skipped processing instruction) ends in a state that satisfies the invariant with
+// no deferred token and a larger cursor - one of the states the harness starts from - so all passes are covered by induction.
+// ---------------------------------------------------------------------------------------------------------
+#[cfg(kani)]
+fn stub_post<'a>(lx: &mut ArxmlLexer<'a>, min_new: usize, max_new: usize) {
+    let new = vk::any_usize();
+    vk::assume(new >= min_new && new <= max_new && new > lx.bufpos && new <= lx.buffer.len());
+    let line = vk::any_usize();
+    vk::assume(line >= 1 && line <= 1 + count_nl(lx.buffer, new));
+    lx.bufpos = new;
+    lx.line = line;
+}
+
+#[cfg(kani)]
+fn any_subslice<'a>(b: &'a [u8]) -> &'a [u8] {
+    let s = vk::any_usize();
+    let e = vk::any_usize();
+    vk::assume(s <= e && e <= b.len());
+    &b[s..e]
+}
+
+#[cfg(kani)]
+fn stub_tag_pre(lx: &ArxmlLexer, endpos: usize) {
+    let len = lx.buffer.len();
+    kani::assert(lx.bufpos < len, "step called with the cursor at the end of the input");
+    kani::assert(endpos > lx.bufpos + 1 && endpos < len, "step called with an end position outside (cursor+1, len)");
+    kani::assert(lx.buffer[lx.bufpos] == b'<' && lx.buffer[endpos] == b'>', "step called on something that is not <...>");
+}
+
+#[cfg(kani)]
+impl<'a> ArxmlLexer<'a> {
+    fn stub_read_characters(&mut self) -> (ArxmlEvent<'a>, bool) {
+        kani::assert(self.bufpos < self.buffer.len() && self.buffer[self.bufpos] != b'<', "read_characters called outside its precondition");
+        let len = self.buffer.len();
+        stub_post(self, 0, len);
+        // white-space-only text makes the dispatcher loop: the state reached here satisfies the invariant with no deferred
+        // token, i.e. it is one of the states this harness starts from -> covered by induction on len - cursor; cut the path.
+        if vk::any_bool() {
+            kani::assume(false);
+        }
+        (ArxmlEvent::Characters(any_subslice(self.buffer)), false)
+    }
+
+    fn stub_read_element_start(&mut self, endpos: usize) -> ArxmlEvent<'a> {
+        stub_tag_pre(self, endpos);
+        let old = self.bufpos;
+        stub_post(self, endpos + 1, endpos + 1);
+        if vk::any_bool() {
+            let s = vk::any_usize();
+            let e = vk::any_usize();
+            vk::assume(s <= e && e <= self.bufpos);
+            self.deferred_end = Some((s, e));
+        }
+        let _ = old;
+        ArxmlEvent::BeginElement(any_subslice(self.buffer), any_subslice(self.buffer))
+    }
+
+    fn stub_read_element_end(&mut self, endpos: usize) -> ArxmlEvent<'a> {
+        stub_tag_pre(self, endpos);
+        kani::assert(self.buffer[self.bufpos + 1] == b'/', "read_element_end called on a tag that does not start with </");
+        stub_post(self, endpos + 1, endpos + 1);
+        ArxmlEvent::EndElement(any_subslice(self.buffer))
+    }
+
+    fn stub_read_xml_header(&mut self, endpos: usize) -> Option<Result<ArxmlEvent<'a>, AutosarDataError>> {
+        stub_tag_pre(self, endpos);
+        kani::assert(self.buffer[self.bufpos + 1] == b'?', "read_xml_header called on a tag that does not start with <?");
+        let which = vk::any_u8();
+        if which == 0 {
+            // error: line is the current line, cursor anywhere up to len
+            Some(Err(AutosarDataError::LexerError { filename: PathBuf::new(), line: self.line, source: ArxmlLexerError::InvalidXmlHeader }))
+        } else if which == 1 {
+            stub_post(self, endpos + 1, endpos + 1);
+            Some(Ok(ArxmlEvent::ArxmlHeader(None)))
+        } else {
+            stub_post(self, endpos + 1, endpos + 1);
+            // a skipped processing instruction makes the dispatcher loop: covered by induction (see stub_read_characters)
+            kani::assume(false);
+            None
+        }
+    }
+
+    fn stub_read_comment(&mut self, endpos: usize) -> Result<ArxmlEvent<'a>, AutosarDataError> {
+        let len = self.buffer.len();
+        kani::assert(self.bufpos < len && endpos > self.bufpos + 1 && endpos < len, "read_comment called with an end position outside (cursor+1, len)");
+        kani::assert(self.buffer[self.bufpos] == b'<' && self.buffer[self.bufpos + 1] == b'!', "read_comment called on something that does not start with <!");
+        kani::assert(self.buffer[endpos] == b'>' && self.buffer[endpos - 1] == b'-' && self.buffer[endpos - 2] == b'-', "read_comment called with an end position that is not the end of -->");
+        if vk::any_bool() {
+            Err(AutosarDataError::LexerError { filename: PathBuf::new(), line: self.line, source: ArxmlLexerError::InvalidComment })
+        } else {
+            stub_post(self, endpos + 1, endpos + 1);
+            Ok(ArxmlEvent::Comment(any_subslice(self.buffer)))
+        }
+    }
+}
+
+macro_rules! h_lex_next_contracts {
+    ($name:ident, $n:literal, $unw:literal) => {
+        #[cfg(kani)]
+        #[kani::proof]
+        #[kani::unwind($unw)]
+        #[kani::stub(ArxmlLexer::read_characters, ArxmlLexer::stub_read_characters)]
+        #[kani::stub(ArxmlLexer::read_element_start, ArxmlLexer::stub_read_element_start)]
+        #[kani::stub(ArxmlLexer::read_element_end, ArxmlLexer::stub_read_element_end)]
+        #[kani::stub(ArxmlLexer::read_xml_header, ArxmlLexer::stub_read_xml_header)]
+        #[kani::stub(ArxmlLexer::read_comment, ArxmlLexer::stub_read_comment)]
+        pub fn $name() {
+            let buf: [u8; $n] = vk::any_bytes::<$n>();
+            let len = vk::any_usize();
+            vk::assume(len <= $n);
+            let mut lx = any_lexer(&buf[..len], true);
+            let old = lx.bufpos;
+            let had_deferred = lx.deferred_end.is_some();
+            let r = lx.next();
+            let mut ok = true;
+            let mut line_ok = true;
+            match &r {
+                Ok((line, _)) => {
+                    line_ok = *line >= 1 && *line <= 1 + count_nl(&buf[..len], len);
+                }
+                Err(e) => {
+                    ok = false;
+                    line_ok = lexer_err_line_ok(e, &buf[..len]);
+                }
+            }
+            let is_eof = matches!(&r, Ok((_, ArxmlEvent::EndOfFile)));
+            core::mem::forget(r);
+            vk_cover!(!ok, "some input is rejected");
+            vk_cover!(ok && !is_eof && !had_deferred, "some input yields a token");
+            vk_check!(line_ok, "line number outside the input's lines (next)");
+            if ok {
+                vk_check!(inv(&lx), "tokenizer invariant broken by next");
+                if !is_eof && !had_deferred {
+                    vk_check!(lx.bufpos > old, "next returned a token without consuming input");
+                }
+                if is_eof {
+                    vk_check!(lx.bufpos == len, "end of file reported before the end of the input");
+                }
+            }
+            core::mem::forget(lx);
+        }
+        #[cfg(not(kani))]
+        pub fn $name() {
+            // native replay: the real steps run instead of their contracts
+            let buf: [u8; $n] = vk::any_bytes::<$n>();
+            let len = vk::any_usize();
+            vk::assume(len <= $n);
+            let mut lx = any_lexer(&buf[..len], true);
+            let old = lx.bufpos;
+            let had_deferred = lx.deferred_end.is_some();
+            let r = lx.next();
+            let total = 1 + count_nl(&buf[..len], len);
+            match &r {
+                Ok((line, ev)) => {
+                    vk_check!(*line >= 1 && *line <= total, "line number outside the input's lines (next)");
+                    let is_eof = matches!(ev, ArxmlEvent::EndOfFile);
+                    vk_check!(is_eof || had_deferred || lx.bufpos > old, "next returned a token without consuming input");
+                    vk_check!(!is_eof || lx.bufpos == len, "end of file reported before the end of the input");
+                }
+                Err(e) => vk_check!(lexer_err_line_ok(e, &buf[..len]), "line number outside the input's lines (next)"),
+            }
+        }
+    };
+}
